@@ -179,6 +179,24 @@ class Skel:
         for a in sorted(self.attr_names):
             if "self." + a not in self.vars:
                 self.vars.append("self." + a)
+        # names used where a seed is expected (`f(seed=x)`, `get_rng(x)`, `{"seed": x}`) are tracked
+        # whatever they are assigned from: `x = None ... f(seed=x)` must be seen
+        def seed_position(e):
+            k = self.key_of(e)
+            if k is not None and k not in self.vars and not (isinstance(e, ast.Name) and e.id in ("None", "self")):
+                self.vars.append(k)
+        for node in ast.walk(self.fn):
+            if isinstance(node, ast.Call):
+                ok, arg = self._ctor_call(node)
+                if ok and arg is not None:
+                    seed_position(arg)
+                for kw in node.keywords:
+                    if kw.arg in SEED_NAMES:
+                        seed_position(kw.value)
+            elif isinstance(node, ast.Dict):
+                for k, v in zip(node.keys, node.values):
+                    if isinstance(k, ast.Constant) and k.value in SEED_NAMES:
+                        seed_position(v)
         changed = True
         while changed:
             changed = False
@@ -230,6 +248,10 @@ class Skel:
             return out
         for ch in ast.iter_child_nodes(e):
             self.sinks_of(ch, out)
+        if isinstance(e, ast.NamedExpr):
+            v = self.var_of(e.target)
+            if v is not None:           # (rng := get_rng(seed))
+                out.append(["assign", v, self.value(e.value)])
         if isinstance(e, ast.Call):
             f = e.func
             fname = f.id if isinstance(f, ast.Name) else (f.attr if isinstance(f, ast.Attribute) else None)
@@ -300,6 +322,15 @@ class Skel:
             v = self.var_of(t)
             if v is not None:
                 out.append(["assign", v, self.value(val)])
+            elif isinstance(t, (ast.Tuple, ast.List)) and isinstance(val, (ast.Tuple, ast.List)) and \
+                    len(t.elts) == len(val.elts) and \
+                    not any(isinstance(x, ast.Starred) for x in list(t.elts) + list(val.elts)) and \
+                    not ({self.var_of(n) for x in t.elts for n in ast.walk(x)} - {None}) & \
+                        ({self.var_of(n) for x in val.elts for n in ast.walk(x)} - {None}):
+                # a, rng = x, get_rng(seed): element by element (the right-hand sides are evaluated
+                # before any target is bound: only when no target occurs on the right)
+                for te, ve in zip(t.elts, val.elts):
+                    out.extend(self.assign_targets([te], ve))
             elif isinstance(t, (ast.Tuple, ast.List)):
                 for el in ast.walk(t):
                     v2 = self.var_of(el)
